@@ -239,13 +239,17 @@ func ZZC12_next() {
 			// or the request (a streamed body) cannot be sent again
 			zzReach("read_of_a_cut_reply_failed")
 			faults = 0 // recount: the resume made further calls
+			definite := false
 			for _, cl := range net.calls {
 				if cl.status != 200 && cl.status != 206 {
 					faults++
 				}
+				if cl.status == 404 || cl.status == 401 {
+					definite = true // not a transient fault: the host has answered, it is not asked again
+				}
 			}
 			// (a request that asks for errors to be ignored gives up on a host at its first fault, by design)
-			zzAssert(net.cutN > 0 && (faults+net.cutN >= R || req.BodyFunc != nil || ignoreErr), "fewer_faults_than_the_limit_are_absorbed")
+			zzAssert(net.cutN > 0 && (faults+net.cutN >= R || req.BodyFunc != nil || ignoreErr || definite), "fewer_faults_than_the_limit_are_absorbed")
 		} else {
 			zzAssert(string(b) == "ok", "body_of_the_good_reply_is_delivered")
 		}
